@@ -944,6 +944,14 @@ func (e *Env) call(ex *ast.CallExpr) (SymVal, error) {
 		}
 		rng := sAnd(c.cmpS("<=", lo.S, bn), c.cmpS("<", bn, hi.S))
 		if name == "forall" {
+			pats := selectPatterns(body.S, bn)
+			if len(pats) > 0 {
+				var ps string
+				for _, p := range pats {
+					ps += " :pattern (" + p + ")"
+				}
+				return mkBool(fmt.Sprintf("(forall ((%s %s)) (! %s%s))", bn, srt, sImp(rng, body.S), ps)), nil
+			}
 			return mkBool(fmt.Sprintf("(forall ((%s %s)) %s)", bn, srt, sImp(rng, body.S))), nil
 		}
 		return mkBool(fmt.Sprintf("(exists ((%s %s)) %s)", bn, srt, sAnd(rng, body.S))), nil
@@ -1047,6 +1055,13 @@ func (e *Env) call(ex *ast.CallExpr) (SymVal, error) {
 			return SymVal{}, err
 		}
 		return mkMath(app("wrap_s32", x.S)), nil
+	case "wrapu16", "wrapu8", "wrap16", "wrap8":
+		x, err := arg(0)
+		if err != nil {
+			return SymVal{}, err
+		}
+		fn := map[string]string{"wrapu16": "wrap_u16", "wrapu8": "wrap_u8", "wrap16": "wrap_s16", "wrap8": "wrap_s8"}[name]
+		return mkMath(app(fn, x.S)), nil
 	case "div", "mod", "fdiv", "fmod", "min", "max", "abs":
 		var as []string
 		for i := range ex.Args {
@@ -1165,7 +1180,12 @@ func (e *Env) call(ex *ast.CallExpr) (SymVal, error) {
 			return SymVal{}, fmt.Errorf("%s(Type.field, p, i[, v])", name)
 		}
 		comp := "$ghost:" + exprString(sel) + "[]"
-		c.g.compKT[comp] = compKT{KBool, nil}
+		kt, known := c.g.compKT[comp]
+		if !known {
+			kt = compKT{KBool, nil}
+			c.g.compKT[comp] = kt
+		}
+		gsort := c.sortOf(kt.k, kt.t)
 		ref, _, ok := e.evalAddr(ex.Args[1])
 		if !ok {
 			pv, err := arg(1)
@@ -1182,16 +1202,54 @@ func (e *Env) call(ex *ast.CallExpr) (SymVal, error) {
 			return SymVal{}, err
 		}
 		cell := app("elm", ref, iv.S)
-		hn := c.comp(e.st, comp, "Bool")
+		hn := c.comp(e.st, comp, gsort)
 		if name == "gelem" {
-			return mkBool(app("select", hn, cell)), nil
+			return SymVal{K: kt.k, S: app("select", hn, cell)}, nil
 		}
 		vv, err := arg(3)
 		if err != nil {
 			return SymVal{}, err
 		}
-		ho := c.comp(e.old, comp, "Bool")
+		ho := c.comp(e.old, comp, gsort)
 		return mkBool(sEq(hn, app("store", ho, cell, vv.S))), nil
+	case "gsame":
+		// gsame(Type.field): the ghost array is unchanged since the old state
+		sel, ok := ex.Args[0].(*ast.SelectorExpr)
+		if !ok {
+			return SymVal{}, fmt.Errorf("gsame(Type.field)")
+		}
+		comp := "$ghost:" + exprString(sel) + "[]"
+		kt, known := c.g.compKT[comp]
+		if !known {
+			kt = compKT{KBool, nil}
+			c.g.compKT[comp] = kt
+		}
+		gsort := c.sortOf(kt.k, kt.t)
+		return mkBool(sEq(c.comp(e.st, comp, gsort), c.comp(e.old, comp, gsort))), nil
+	case "strid":
+		// an Int token standing for a string value (injective)
+		a, err := arg(0)
+		if err != nil {
+			return SymVal{}, err
+		}
+		if a.K != KStr {
+			return SymVal{}, fmt.Errorf("strid needs a string")
+		}
+		return mkMath(app("box_str", a.S)), nil
+	case "bytesid":
+		// an Int token standing for a byte chunk (identity of the slice; contents are not modelled)
+		a, err := arg(0)
+		if err != nil {
+			return SymVal{}, err
+		}
+		if a.K != KSlice {
+			return SymVal{}, fmt.Errorf("bytesid needs a slice")
+		}
+		if c.flags["$bytesid"] == "" {
+			c.flags["$bytesid"] = "1"
+			fmt.Fprintf(&c.sb, "(declare-fun bytesid (Ref Int Int) Int)\n")
+		}
+		return mkMath(app("bytesid", a.Fs[0].S, a.Fs[1].S, a.Fs[2].S)), nil
 	case "refof":
 		a, err := arg(0)
 		if err != nil {
@@ -1476,6 +1534,13 @@ func (e *Env) callSpecFn(sf *SpecFn, ex *ast.CallExpr) (SymVal, error) {
 		if err != nil {
 			return SymVal{}, err
 		}
+		if id, ok := a.(*ast.Ident); ok && v.K == KStruct {
+			// a struct variable that lives in memory is passed to spec functions by reference,
+			// so that ghost state attached to the object can be named
+			if r, t, ok := c.addrOfVar(id.Name); ok {
+				v = mkRef(r, types.NewPointer(t))
+			}
+		}
 		if c.bv {
 			w := 64
 			if t := specIntType(sf.Params[i].Type); t != nil {
@@ -1533,4 +1598,63 @@ func (e *Env) callSpecFn(sf *SpecFn, ex *ast.CallExpr) (SymVal, error) {
 		fmt.Fprintf(&c.sb, "(declare-fun %s (%s) %s)\n", name, strings.Join(argSorts, " "), rs)
 	}
 	return SymVal{K: rk, S: app(name, argTerms...)}, nil
+}
+
+
+// selectPatterns returns the array reads "(select A idx)" of body whose index mentions the bound
+// variable bn and that contain no nested read of that kind: E-matching triggers for quantified
+// array facts (at most 3).
+func selectPatterns(body, bn string) []string {
+	var out []string
+	seen := map[string]bool{}
+	for i := 0; i+8 < len(body); i++ {
+		if !strings.HasPrefix(body[i:], "(select ") {
+			continue
+		}
+		// find the matching close paren
+		d := 0
+		end := -1
+		inBar := false
+		for j := i; j < len(body); j++ {
+			ch := body[j]
+			if ch == '|' {
+				inBar = !inBar
+			}
+			if inBar {
+				continue
+			}
+			if ch == '(' {
+				d++
+			} else if ch == ')' {
+				d--
+				if d == 0 {
+					end = j + 1
+					break
+				}
+			}
+		}
+		if end < 0 {
+			continue
+		}
+		t := body[i:end]
+		if !strings.Contains(t, bn) || seen[t] {
+			continue
+		}
+		// skip terms that contain another quantifier or arithmetic-only use? keep simple: must not contain "forall"
+		if strings.Contains(t, "(forall ") || strings.Contains(t, "(exists ") {
+			continue
+		}
+		// prefer innermost: if t contains a nested select mentioning bn, skip t (the nested one will be found)
+		inner := t[8:]
+		if k := strings.Index(inner, "(select "); k >= 0 && strings.Contains(inner[k:], bn) {
+			continue
+		}
+		// other bound variables (of enclosing quantifiers) make the pattern ill-scoped only if they are not in scope; they are.
+		seen[t] = true
+		out = append(out, t)
+		if len(out) == 3 {
+			break
+		}
+	}
+	return out
 }
